@@ -86,6 +86,17 @@ def make_classes():
     class OrderKey(Base, metaclass=singleton.semi_singleton_metaclass(hashfunc=_call_order)):
         pass
 
+    class Factory(Base, metaclass=singleton.semi_singleton_metaclass()):
+        """__new__ hands out an instance of an implementation subclass (as pathlib.Path() hands out a PosixPath)."""
+
+        def __new__(cls, *args, **kwargs):
+            if cls is Factory:
+                cls = FactoryImpl
+            return super().__new__(cls)
+
+    class FactoryImpl(Factory):
+        pass
+
     class EmptyBag(Base, metaclass=singleton.semi_singleton_metaclass()):
         """Container-like class: its instances are falsy (len 0)."""
 
@@ -117,13 +128,13 @@ def make_classes():
             INIT_LOG.append((type(self).__name__, id(self), args, dict(kwargs)))
             super().__init__()
 
-    classes = {c.__name__: c for c in (Own1, Own2, SharedA, SharedB, Parent, Child, Custom, SVertex, EmptyBag, Normalizer, Picky, OrderKey)}
+    classes = {c.__name__: c for c in (Own1, Own2, SharedA, SharedB, Parent, Child, Custom, SVertex, EmptyBag, Normalizer, Picky, OrderKey, Factory)}
     return classes
 
 
-CLASS_NAMES = ["Own1", "Own2", "SharedA", "SharedB", "Parent", "Child", "Custom", "SVertex", "EmptyBag", "Normalizer", "Picky", "OrderKey"]
+CLASS_NAMES = ["Own1", "Own2", "SharedA", "SharedB", "Parent", "Child", "Custom", "SVertex", "EmptyBag", "Normalizer", "Picky", "OrderKey", "Factory"]
 ARRANGEMENT = {"Own1": "own", "Own2": "own", "SharedA": "shared_metaclass", "SharedB": "shared_metaclass",
-               "Parent": "subclassing", "Child": "subclassing", "Custom": "custom_hashfunc", "SVertex": "vertex_subclass", "EmptyBag": "falsy_instances", "Normalizer": "init_mutates_arguments", "Picky": "init_may_raise", "OrderKey": "keyword_order_sensitive_hashfunc"}
+               "Parent": "subclassing", "Child": "subclassing", "Custom": "custom_hashfunc", "SVertex": "vertex_subclass", "EmptyBag": "falsy_instances", "Normalizer": "init_mutates_arguments", "Picky": "init_may_raise", "OrderKey": "keyword_order_sensitive_hashfunc", "Factory": "new_returns_subclass_instance"}
 
 
 def model_key(cname, args, kwargs):
@@ -237,7 +248,7 @@ def run_history(ctx, ops, record=True):
                     viol(f"construct:new_key_returned_existing:{ARRANGEMENT[cname]}:{sub}",
                          f"{cname}{args}{kwargs} is a new key but returned an existing object (of {owner})", k)
                     break
-                if type(obj) is not cls:
+                if not isinstance(obj, cls) or (type(obj) is not cls and cname != "Factory"):
                     viol(f"construct:wrong_type:{ARRANGEMENT[cname]}", f"{cname}(...) returned a {type(obj).__name__}", k)
                     break
                 if ninit != 1 or INIT_LOG[-1][2] != args or INIT_LOG[-1][3] != kwargs:
@@ -245,6 +256,10 @@ def run_history(ctx, ops, record=True):
                     break
                 model[cname][key] = obj
                 created.append(obj)
+        elif kind == "add" and cname == "Factory":
+            # add_mapping(obj, ...) files the mapping under type(obj) - here the implementation subclass, which is a
+            # class of its own with keys of its own; nothing the property says about Factory is touched by it
+            continue
         elif kind == "add":
             insts = list(model[cname].values())
             if not insts:
@@ -341,7 +356,7 @@ def prelude():
     """Seed-independent scripts that make every arrangement x situation appear."""
     out = []
     for a, b in (("Own1", "Own2"), ("SharedA", "SharedB"), ("Parent", "Child"), ("Child", "Parent"), ("Custom", "Own1"),
-                 ("SVertex", "Own1"), ("SharedB", "SharedA"), ("EmptyBag", "Own1"), ("Own2", "EmptyBag"), ("Normalizer", "Own1"), ("Picky", "Own2"), ("OrderKey", "Own1"), ("Own2", "OrderKey")):
+                 ("SVertex", "Own1"), ("SharedB", "SharedA"), ("EmptyBag", "Own1"), ("Own2", "EmptyBag"), ("Normalizer", "Own1"), ("Picky", "Own2"), ("OrderKey", "Own1"), ("Own2", "OrderKey"), ("Factory", "Own1"), ("Parent", "Factory")):
         for v1, v2 in ((0, 1), (2, 3), (5, 6), (12, 13), (19, 20), (9, 9)):
             out.append([
                 {"op": "new", "c": a, "a": [v1], "k": 0, "i": 0},
